@@ -179,5 +179,38 @@ ADDED4 = {
 }
 for _k, _v in ADDED4.items():
     CLAIMS[_k]['text'] = CLAIMS[_k]['text'] + _v
+# rules written from the round-3 observations (DESIGN.md sections 0.2b and 9.4b)
+ADDED5 = {
+    'C01': ' From the round-3 observations: EQ-CONTENT (ByteBuffer::operator== lets the buffer pointers decide only for non-empty buffers; found and fixed: an emptied buffer was not == to its round-tripped copy).',
+    'C02': ' From the round-3 observations: COUNT-CONSULTED (shared with C03), STREAM-END (a loop around inflate() does not go round again after Z_STREAM_END, decided on the cyclic paths with contradiction pruning; found and fixed the ReadAndInflateAndWrite hang), MICRO-WALK also bounds item lengths handed out through out-parameters (found and fixed UMFindData).',
+    'C03': ' From the round-3 observations: COUNT-CONSULTED (the byte count of every DataIO transfer in the gateways is consulted on every non-error path; found and fixed the WebSocket handshake that appended an unread byte after a zero-byte read) and BYTE-VIEW (an integer local is not used both through its memory bytes and through a byte-order converting writer; found and fixed the WebSocket client masking key).',
+    'C04': ' From the round-3 observations: LEAVE-ALL (the removed-flag for a node that stays in the tree is raised only where _subscriptions.MatchesNode() over all subscriptions was found false; ChangeQueryFilterCallback is the one known finding: overlapping subscriptions).',
+    'C05': ' From the round-3 observations: unescape-once (a clause split by the comma-list fast path is unescaped exactly once before GetChild(); found and fixed the double unescape) and ONCE abandon-child (after a callback or recursion returned a depth above the child\'s own depth nothing more is done for that child, decided on all paths between the callback and recursion sites; found and fixed the double delivery for keys selecting a session node and a node below it).',
+    'C12': ' From the round-3 observations: PENDING-VISIBLE (HasBytesToOutput() reads the member that mirrors the size of a packet DoOutput() may still hold; found and fixed in both tunnels).',
+    'C13': ' From the round-3 observations: ENTRY-ONCE (an index entry is added only for a node created in the same function or after RemoveIndexEntry() for it on the same node; found and fixed the duplicated entries of a clone onto an existing destination); FULL-SCAN reads while-form loops and helper queues.',
+    'C14': ' From the round-3 observations: PARSED-USED (every local ParseFieldName() fills in flows into the CreateSubexpression() call; found and fixed: the documented name:index and name|default forms never matched the field they name).',
+    'C16': ' From the round-3 observations: ABANDON-INLINE (the inline slots are reset before _queue leaves the inline buffer; found and fixed SwapContents, which an earlier frozen exception had wrongly excused) and ALIAS-GUARD for pointer and Queue parameters and any in-place shift loop (found and fixed InsertItemsAt(i, &q[k], n)).',
+    'C17': ' From the round-3 observations: CHAR-ORDER (no signed ordering comparison of two chars outside digit runs; found and fixed the numeric-aware comparison, which sorted bytes >= 0x80 before ASCII).',
+    'C19': ' From the round-3 observations: UNREGISTER-ATOMIC (the "nothing outstanding" test and the removal of the client share one guard object, or the wake-up registration failed; found and fixed a check-then-act race between submission and unregistration).',
+    'C20': ' LINKS unlink-complete looks through PulseNode helpers.',
+}
+for _k, _v in ADDED5.items():
+    CLAIMS[_k]['text'] = CLAIMS[_k]['text'] + _v
+CLAIMS['C17']['note'] = 'Narrow: the serialisation sentence plus three structural necessary conditions of the in-memory operations (LENGTH-LAST, SELF-ALIAS, CHAR-ORDER); the ideal-string refinement is not decided.'
+_TECH5 = {
+    'C01': '; path rule on ByteBuffer::operator== (pointer-dependent false returns only under a non-zero length fact)',
+    'C02': '; API typestate on cyclic CFG paths (no inflate() after Z_STREAM_END, contradictory branch decisions pruned); transfer-count consultation on all non-error paths',
+    'C03': '; transfer-count consultation on all non-error paths; byte-view / byte-order-writer exclusion per integer local',
+    'C04': '; dominance of flag-raising sites by a negative whole-subscription-set test',
+    'C05': '; unescape counting along the clause flow; path enumeration between callback and recursion sites with once-only flag pruning',
+    'C12': '; sibling agreement between the held-packet member of DoOutput and the HasBytesToOutput predicate',
+    'C13': '; must-precede of RemoveIndexEntry / freshness at every index insertion site',
+    'C14': '; def-use closure from parser out-arguments to the factory call',
+    'C16': '; path rule on every re-pointing of _queue (inline slots reset or not-inline proven)',
+    'C17': '; type-level rule on ordering comparisons of plain char operands',
+    'C19': '; check-then-act atomicity at guard-object granularity (RAII guard instances from the lock-set data flow)',
+}
+for _k, _v in _TECH5.items():
+    CLAIMS[_k]['technique'] = CLAIMS[_k]['technique'] + _v
 for _k in CLAIMS:
     CLAIMS[_k]['text'] = CLAIMS[_k]['text'] + ' Robustness: every condition is read independently of its spelling; the thorough tier re-runs the rules on the facts with all comparisons exchanged and all negations respelled and requires the same verdict, and requires silence on the behaviour-preserving patches under equivalents/.'
